@@ -44,41 +44,69 @@ fn dump(lm: &LockManager) -> Value {
 
 /// K13: one process takes locks and serialises its lock table; a freshly started process restores it and locks another key.
 /// Each phase runs in its own child process of this driver so that the process-wide handle counter starts from scratch.
-pub fn restart_phase(phase: &str, file: &str, nlocks: u64) -> Value {
+pub fn restart_phase(phase: &str, file: &str, expired_mask: u64) -> Value {
+    // bit i of expired_mask: restored lock i is already past its TTL when the new process starts; bit 63..: count in the low byte
+    let nlocks = expired_mask & 0xff;
+    let expired = |i: u64| (expired_mask >> (8 + i)) & 1 == 1;
     match phase {
         "A" => {
+            // handles as a fresh process issues them (1, 2, ...): taken through try_lock, then aged where the witness says so
             let lm = LockManager::new();
             let mut handles = vec![];
             for i in 0..nlocks {
                 match lm.try_lock(100 + i, &[format!("old{i}")]) { Ok(h) => handles.push(h), Err(t) => return json!({"error": format!("phase A conflict with {t}")}) }
             }
-            let bytes = bitcode::serialize(&lm.to_serializable()).unwrap_or_default();
+            let st = lm.to_serializable();
+            let mut locks = st.locks().clone();
+            for i in 0..nlocks {
+                if expired(i) {
+                    if let Some(l) = locks.get_mut(&format!("old{i}")) {
+                        l.acquired_at_ms = 0;
+                        l.timeout_ms = 1;
+                    }
+                }
+            }
+            let aged = SerializableLockState::new(locks, st.tx_locks().clone(), 3_600_000);
+            let bytes = bitcode::serialize(&aged).unwrap_or_default();
             if let Err(e) = std::fs::write(file, bytes) { return json!({"error": e.to_string()}); }
             json!({"handles": handles})
         },
         _ => {
             let bytes = match std::fs::read(file) { Ok(b) => b, Err(e) => return json!({"error": e.to_string()}) };
             let state: SerializableLockState = match bitcode::deserialize(&bytes) { Ok(s) => s, Err(e) => return json!({"error": format!("{e:?}")}) };
+            let old_handles: Vec<u64> = (0..nlocks).filter_map(|i| state.locks().get(&format!("old{i}")).map(|l| l.lock_handle)).collect();
             let lm = LockManager::from_serializable(state);
             let held_before: Vec<bool> = (0..nlocks).map(|i| lm.lock_holder(&format!("old{i}")) == Some(100 + i)).collect();
             let new_handle = match lm.try_lock(999, &["fresh-key".to_string()]) { Ok(h) => h, Err(t) => return json!({"error": format!("phase B conflict with {t}")}) };
-            // the new transaction finishes: its locks are released by handle
-            lm.release_by_handle(new_handle);
-            let held_after: Vec<bool> = (0..nlocks).map(|i| lm.lock_holder(&format!("old{i}")) == Some(100 + i)).collect();
-            json!({"new_handle": new_handle, "restored_locks_held_before": held_before, "restored_locks_held_after": held_after})
+            let reused = old_handles.contains(&new_handle);
+            // either side finishing releases by handle: the new transaction first ...
+            let probe = LockManager::from_serializable(lm.to_serializable());
+            probe.release_by_handle(new_handle);
+            let held_after: Vec<bool> = (0..nlocks).map(|i| probe.lock_holder(&format!("old{i}")) == Some(100 + i)).collect();
+            // ... or a restored transaction finishing late (its lock may have expired meanwhile; it still releases by its handle)
+            for h in &old_handles {
+                lm.release_by_handle(*h);
+            }
+            let new_tx_still_holds = lm.lock_holder("fresh-key") == Some(999);
+            json!({"new_handle": new_handle, "restored_handles": old_handles, "handle_reused": reused, "restored_locks_held_before": held_before,
+                   "restored_locks_held_after_new_tx_release": held_after, "new_tx_holds_after_late_release_of_restored": new_tx_still_holds})
         },
     }
 }
 
 fn lock_handle_restart(req: &Value) -> Value {
     let n = req["locks"].as_u64().unwrap_or(1).clamp(1, 4);
+    let mut mask = n;
+    for (i, e) in req["expired"].as_array().into_iter().flatten().enumerate() {
+        if e.as_bool().unwrap_or(false) { mask |= 1 << (8 + i); }
+    }
     let dir = std::env::var("VERIF_BUILD").unwrap_or_else(|_| "/verif/.build".into());
     let dir = std::path::PathBuf::from(dir).join("replay-tmp");
     let _ = std::fs::create_dir_all(&dir);
     let file = dir.join(format!("locks-{}-{}.bin", std::process::id(), std::time::SystemTime::now().duration_since(std::time::UNIX_EPOCH).map(|d| d.as_nanos()).unwrap_or(0)));
     let exe = match std::env::current_exe() { Ok(e) => e, Err(e) => return json!({"error": e.to_string()}) };
     let run = |phase: &str| -> Value {
-        match std::process::Command::new(&exe).args(["--lock-restart-phase", phase, &file.to_string_lossy(), &n.to_string()]).output() {
+        match std::process::Command::new(&exe).args(["--lock-restart-phase", phase, &file.to_string_lossy(), &mask.to_string()]).output() {
             Ok(o) => serde_json::from_slice(&o.stdout).unwrap_or_else(|_| json!({"error": String::from_utf8_lossy(&o.stderr).to_string()})),
             Err(e) => json!({"error": e.to_string()}),
         }
@@ -88,7 +116,7 @@ fn lock_handle_restart(req: &Value) -> Value {
     let _ = std::fs::remove_file(&file);
     let old: Vec<u64> = a["handles"].as_array().into_iter().flatten().filter_map(Value::as_u64).collect();
     let reused = b["new_handle"].as_u64().is_some_and(|h| old.contains(&h));
-    let lost = b["restored_locks_held_before"] != b["restored_locks_held_after"];
+    let lost = b["restored_locks_held_before"] != b["restored_locks_held_after_new_tx_release"] || b["new_tx_holds_after_late_release_of_restored"] == json!(false);
     json!({"first_process": a, "restarted_process": b, "handle_reused": reused, "other_transactions_lock_released": lost, "violates": reused && lost})
 }
 
